@@ -889,10 +889,24 @@ impl Compactor {
 
         info!(count = chunks_to_delete.len(), "Garbage collecting chunks");
 
-        // Delete from object storage
+        // Delete from object storage. Each path is claimed in the pin registry first: a query
+        // that pinned it since the filter above keeps it (it stays pending), and no query can
+        // pin it while the delete is in flight.
         let mut failures = 0u64;
+        let mut still_pinned: Vec<String> = Vec::new();
         for path in &chunks_to_delete {
-            match self.object_store.delete(&path.clone().into()).await {
+            if let Some(ref registry) = self.pin_registry {
+                if !registry.begin_delete(path) {
+                    debug!(path = %path, "Skipping GC for pinned chunk (active query)");
+                    still_pinned.push(path.clone());
+                    continue;
+                }
+            }
+            let deleted = self.object_store.delete(&path.clone().into()).await;
+            if let Some(ref registry) = self.pin_registry {
+                registry.end_delete(path);
+            }
+            match deleted {
                 Ok(_) => {
                     debug!(path = %path, "Deleted chunk from object storage");
                     counter!(
@@ -923,7 +937,9 @@ impl Compactor {
         // Remove from pending deletions
         {
             let mut pending = self.pending_deletions.write().unwrap();
-            pending.retain(|entry| !chunks_to_delete.contains(&entry.path));
+            pending.retain(|entry| {
+                !chunks_to_delete.contains(&entry.path) || still_pinned.contains(&entry.path)
+            });
         }
 
         info!(
